@@ -82,9 +82,35 @@ def ensure_driver():
             raise BuildError("driver build failed:\n" + r.stdout[-4000:])
 
 
+def _gc_cache():
+    """Fact directories of analysed trees that no longer exist (scratch copies) are removed."""
+    try:
+        now = time.time()
+        for n in os.listdir(CACHE):
+            p = os.path.join(CACHE, n)
+            if not n.startswith("facts-"):
+                continue
+            if n.endswith(".tmp"):
+                if now - os.path.getmtime(p) > 3 * 3600:
+                    shutil.rmtree(p, ignore_errors=True)
+            elif n.endswith(".lock"):
+                if not os.path.isdir(p[:-5]) and now - os.path.getmtime(p) > 3600:
+                    os.unlink(p)
+            elif os.path.isdir(p):
+                try:
+                    st = json.load(open(os.path.join(p, "STAMP.json")))
+                except Exception:
+                    continue
+                if st.get("repo") and not os.path.isdir(st["repo"]):
+                    shutil.rmtree(p, ignore_errors=True)
+    except OSError:
+        pass
+
+
 def ensure_facts(repo=REPO, verbose=True):
     """Return (facts_dir, info). Re-extracts when the tree changed. Serialised by flock."""
     os.makedirs(CACHE, exist_ok=True)
+    _gc_cache()
     fd = facts_dir(repo)
     want = source_hash(repo) + "+" + driver_hash()
     # one lock per analysed tree (cargo serialises concurrent users of the shared target dir itself)
